@@ -57,7 +57,7 @@ type partAdapter interface {
 
 func (e *partEnv) get(w *World) client.Object {
 	o := e.a.New()
-	if !w.S.Load(NS, WorkloadNm, o) {
+	if !w.S.Load(w.NS, WorkloadNm, o) {
 		return nil
 	}
 	return o
@@ -65,6 +65,7 @@ func (e *partEnv) get(w *World) client.Object {
 
 func (e *partEnv) Fixture(w *World) error {
 	o := e.a.Fixture(w.Cfg.Replicas)
+	o.SetNamespace(w.NS)
 	if err := w.S.Put(o); err != nil {
 		return err
 	}
@@ -86,7 +87,7 @@ func (e *partEnv) createPod(w *World, o client.Object, rev int, ready bool) erro
 	t := true
 	gvk := e.a.GVK()
 	p := &corev1.Pod{
-		ObjectMeta: metav1.ObjectMeta{Namespace: NS, Name: name,
+		ObjectMeta: metav1.ObjectMeta{Namespace: w.NS, Name: name,
 			Labels:          map[string]string{"app": WorkloadNm, "controller-revision-hash": revName(rev), "pod-template-hash": fmt.Sprintf("v%d", rev)},
 			OwnerReferences: []metav1.OwnerReference{{APIVersion: gvk.GroupVersion().String(), Kind: gvk.Kind, Name: o.GetName(), UID: o.GetUID(), Controller: &t}},
 		},
@@ -357,7 +358,7 @@ func (stsAdapter) Unified() bool                { return true }
 func (stsAdapter) New() client.Object           { return &apps.StatefulSet{} }
 func (stsAdapter) HasCurrentRevision() bool     { return true }
 func (stsAdapter) Fixture(r int) client.Object {
-	return &apps.StatefulSet{ObjectMeta: metav1.ObjectMeta{Namespace: NS, Name: WorkloadNm},
+	return &apps.StatefulSet{ObjectMeta: metav1.ObjectMeta{Namespace: DefaultNS, Name: WorkloadNm},
 		Spec: apps.StatefulSetSpec{Replicas: utilpointer.Int32(int32(r)), Selector: selectorFor(), Template: podTemplate(1), ServiceName: "demo",
 			UpdateStrategy: apps.StatefulSetUpdateStrategy{Type: apps.RollingUpdateStatefulSetStrategyType}}}
 }
@@ -401,7 +402,7 @@ func (astsAdapter) Unified() bool                { return true }
 func (astsAdapter) New() client.Object           { return &kruisev1beta1.StatefulSet{} }
 func (astsAdapter) HasCurrentRevision() bool     { return true }
 func (astsAdapter) Fixture(r int) client.Object {
-	return &kruisev1beta1.StatefulSet{ObjectMeta: metav1.ObjectMeta{Namespace: NS, Name: WorkloadNm},
+	return &kruisev1beta1.StatefulSet{ObjectMeta: metav1.ObjectMeta{Namespace: DefaultNS, Name: WorkloadNm},
 		Spec: kruisev1beta1.StatefulSetSpec{Replicas: utilpointer.Int32(int32(r)), Selector: selectorFor(), Template: podTemplate(1), ServiceName: "demo",
 			UpdateStrategy: kruisev1beta1.StatefulSetUpdateStrategy{Type: apps.RollingUpdateStatefulSetStrategyType}}}
 }
@@ -452,7 +453,7 @@ func (dsAdapter) Unified() bool                { return false }
 func (dsAdapter) New() client.Object           { return &kruisev1alpha1.DaemonSet{} }
 func (dsAdapter) HasCurrentRevision() bool     { return false }
 func (dsAdapter) Fixture(r int) client.Object {
-	ds := &kruisev1alpha1.DaemonSet{ObjectMeta: metav1.ObjectMeta{Namespace: NS, Name: WorkloadNm, Annotations: map[string]string{"verif/nodes": fmt.Sprint(r)}},
+	ds := &kruisev1alpha1.DaemonSet{ObjectMeta: metav1.ObjectMeta{Namespace: DefaultNS, Name: WorkloadNm, Annotations: map[string]string{"verif/nodes": fmt.Sprint(r)}},
 		Spec: kruisev1alpha1.DaemonSetSpec{Selector: selectorFor(), Template: podTemplate(1),
 			UpdateStrategy: kruisev1alpha1.DaemonSetUpdateStrategy{Type: kruisev1alpha1.RollingUpdateDaemonSetStrategyType,
 				RollingUpdate: &kruisev1alpha1.RollingUpdateDaemonSet{Partition: utilpointer.Int32(0)}}}}
